@@ -3,4 +3,5 @@ import Cgm.E2E.C09
 import Cgm.E2E.C09b
 import Cgm.E2E.C09h
 import Cgm.E2E.C09i
+import Cgm.E2E.C09g
 #audit_namespace Cg.E2E.C09
